@@ -138,7 +138,7 @@ func (o *OracleC03) OnOut(n *Node, st *Step, out *Out) {
 				if e == nil || e.Idx != me || e.H != p.H {
 					continue
 				}
-				if orig == nil && n.kind == FAmnesia {
+				if orig == nil && n.kind == FAmnesia && n.inc > 1 {
 					// a restarted node legitimately learns its own earlier (pre)commit
 					// from its peers; from then on that copy is the original
 					continue
